@@ -161,7 +161,7 @@ def rat(x: float) -> str:
 # float literals, comparisons, and a small vocabulary of torch calls.  The result is a chain of `let`s; every number is an element of the
 # scalar type `α` of the Lean model (literals through `OfScientific`, exactly as the hand-written models write them).
 
-_CALLS = {"torch.sqrt": "sqrt", "torch.exp": "exp", "torch.expm1": "expm1", "math.sqrt": "sqrt", "math.exp": "exp"}
+_CALLS = {"torch.sqrt": "sqrt", "torch.exp": "exp", "torch.expm1": "expm1", "math.sqrt": "sqrt", "math.exp": "exp", "torch.abs": "abs"}
 
 
 def _rexpr(e: ast.AST, env: Dict[str, str]) -> str:
@@ -182,6 +182,13 @@ def _rexpr(e: ast.AST, env: Dict[str, str]) -> str:
     if isinstance(e, ast.BinOp) and isinstance(e.op, ast.Pow) and isinstance(e.right, ast.Constant) and e.right.value == 2:
         a = _rexpr(e.left, env)   # torch evaluates x**2 as x*x
         return f"({a} * {a})"
+    if isinstance(e, ast.BinOp) and isinstance(e.op, ast.Pow) and ast.unparse(e.right) in ("1.5", "(1.5)"):
+        return f"(pow15 {_rexpr(e.left, env)})"
+    if isinstance(e, ast.BinOp) and isinstance(e.op, ast.Pow):
+        # general power: a function parameter `pow base exponent`; an integer exponent is passed as the float it is converted to
+        ex = e.right
+        et = f"({float(ex.value)!r} : α)" if isinstance(ex, ast.Constant) and isinstance(ex.value, int) else _rexpr(ex, env)
+        return f"(pow {_rexpr(e.left, env)} {et})"
     if isinstance(e, ast.Call):
         fn = ast.unparse(e.func)
         if fn in _CALLS and len(e.args) == 1:
